@@ -1,0 +1,31 @@
+//go:build verif
+
+// Contracts for package sei, checked by /verif/govc (comment-only file, compiled only with -tags verif).
+package sei
+
+//@ axiom ErrRbspTrailingBitsMissing != nil
+
+//@ pred sdOK(sd *SEIData) = sd != nil
+//@ typeinv *SEIData sdOK
+
+//@ func NewRegisteredSEI
+//@   requires sd != nil
+//@ func NewUnregisteredSEI
+//@   requires sd != nil
+
+// Termination of the "read until a byte other than 0xff" loops and of the message loop: every iteration consumes a byte
+// or ends with an error (Read then returns 0, which is not 0xff).
+//@ func ExtractSEIData
+//@   loop 2 decreases ghost(ar.rd).rlen - ghost(ar.rd).rpos, ar.n
+//@   loop 3 decreases ghost(ar.rd).rlen - ghost(ar.rd).rpos, ar.n
+//@   loop 1 noterm
+
+//@ func DecodeMasteringDisplayColourVolumeSEI
+//@   loop 1 invariant 0 <= i && i <= 3 && pos == 4*i && len(data) == 24
+
+//@ func (MasteringDisplayColourVolumeSEI).Payload
+//@   loop 1 invariant 0 <= i && i <= 3 && pos == 4*i && len(pl) == 24
+
+// SEI payloads of 256 MiB or more are outside the domain (the uint32 decoding-unit counter is compared with <=).
+//@ func DecodePicTimingHevcSEI
+//@   requires len(sd.payload) < 1<<28
